@@ -111,8 +111,6 @@ Proof.
 Qed.
 
 (* ------------------------------------------------------------------ agreement with the Pandas-flavoured reference semantics *)
-Definition unreserved (cs : list string) : Prop := forall c, In c cs -> is_reserved c = false.
-
 Lemma width_perm t t' : cols t = cols t' -> Permutation (rows t) (rows t') -> width_ok t' -> width_ok t.
 Proof.
   unfold width_ok. intros C P W. rewrite Forall_forall in *. intros r I. rewrite C. apply W. eapply Permutation_in; eassumption.
@@ -152,12 +150,11 @@ Proof.
     destruct (sem_gen fl_pandas a e), (sem_gen fl_pandas b e); reflexivity.
 Qed.
 
-Lemma reserved_guard_spec p srcs : step_guard CReserved p srcs = true -> unreserved (names_of_step p).
+Lemma cols_exist_spec p srcs : step_guard CColumnsExist p srcs = true ->
+  forall c, In c (step_cols_needed p) -> In c (step_source_cols p).
 Proof.
-  intros H c I. assert (negb (existsb is_reserved (names_of_step p)) = true) as H'.
-  { destruct p; exact H. }
-  apply negb_true_iff in H'. destruct (is_reserved c) eqn:E; [|reflexivity].
-  assert (existsb is_reserved (names_of_step p) = true); [|congruence]. apply existsb_exists. eauto.
+  intros H c I. assert (forallb (fun c0 => mem c0 (step_source_cols p)) (step_cols_needed p) = true) as H' by (destruct p; exact H).
+  rewrite forallb_forall in H'. apply mem_In. apply H'. exact I.
 Qed.
 
 Lemma rows_nulls_ok_spec sens t es : rows_nulls_ok sens t es = true ->
@@ -195,38 +192,32 @@ Ltac unary_prelude H S G Hs Es Gs Gp :=
 
 Lemma agree_main p : forall e t t',
   plexec p e = Ok t -> (forall c, guard_for c p e = true) -> sem_gen fl_pandas p e = Some t' ->
-  good t /\ cols t = cols t' /\ Permutation (rows t) (rows t') /\ unreserved (column_names p).
+  good t /\ cols t = cols t' /\ Permutation (rows t) (rows t').
 Proof.
   induction p as [n cs|s IHp ops wd w|s IHp ops gb|s IHp x|s IHp cs|s IHp cs|s IHp m|s IHp m dels|s IHp cs rev lim|a IHa b IHb on_a on_b jt|a IHa b IHb idc an bn];
     intros e t t' H G S.
   - (* table *)
     cbn [plexec sem_gen] in H, S. destruct (dict_get e n) as [t0|]; [|discriminate]. inversion S; subst t'.
     apply pl_select_ok in H. destruct H as [-> [ND _]].
-    split; [split; [exact ND|apply width_select_cols]|]. split; [reflexivity|]. split; [apply Permutation_refl|].
-    apply (reserved_guard_spec (OTable n cs) [] (G CReserved)).
+    split; [split; [exact ND|apply width_select_cols]|]. split; [reflexivity|apply Permutation_refl].
   - (* extend *)
     cbn [plexec] in H. unary_prelude H S G Hs Es Gs Gp.
     assert (forall c, step_guard c (OExtend s ops wd w) [ts'] = true) as Gp.
     { intros c0. pose proof (G c0) as Gc. rw_unary Gc s e. rewrite Es in Gc. apply andb_true_iff in Gc. tauto. }
-    destruct (IHp e ts ts' Hs Gs Es) as [[NDs Ws] [Cs [Ps Us]]].
+    destruct (IHp e ts ts' Hs Gs Es) as [[NDs Ws] [Cs Ps]].
     pose proof (sem_cols _ _ _ _ Es) as Cn. pose proof (sem_rows_width _ _ _ _ Es) as Ws'. fold (width_ok ts') in Ws'.
-    pose proof (reserved_guard_spec _ _ (Gp CReserved)) as NR. cbn [names_of_step] in NR.
-    assert (unreserved (column_names (OExtend s ops wd w))) as Un.
-    { intros c I. cbn [column_names] in I. apply In_ext_cols in I. destruct I as [I|I]; [apply Us; exact I|].
-      apply NR. apply in_or_app. left. exact I. }
+    pose proof (cols_exist_spec _ _ (Gp CColumnsExist)) as NR. cbn [step_cols_needed step_source_cols] in NR.
     cbn [column_names] in H. rewrite <- Cn, <- Cs in H.
     destruct wd.
     + (* windowed: group aggregates over a partition *)
       pose proof (Gp CVocab) as V. cbn [step_guard] in V. rewrite <- forallb_map' in V.
       inversion S; subst t'.
       destruct (wextend_step_perm _ ops w ts ts' t (conj NDs Ws) Cs Ps Ws' eq_refl V) as [C2 P2]; [|exact H|].
-      * intros c [I|[I|[I|I]]].
-        -- apply Us. rewrite <- Cn, <- Cs. exact I.
-        -- apply NR. apply in_or_app. left. exact I.
-        -- apply NR. apply in_or_app. right. apply in_or_app. left. exact I.
-        -- apply NR. apply in_or_app. right. apply in_or_app. right. apply in_or_app. left. exact I.
+      * intros c [I|I]; rewrite Cs, Cn; apply NR.
+        -- apply in_or_app. left. exact I.
+        -- apply in_or_app. right. apply in_or_app. left. exact I.
       * assert (cols t = cols (sem_wextend fl_pandas ops w ts')) as CC by (rewrite C2; cbn [sem_wextend cols]; rewrite Cs; reflexivity).
-        split; [split|split; [exact CC|split; [exact P2|exact Un]]].
+        split; [split|split; [exact CC|exact P2]].
         -- rewrite C2. apply NoDup_ext_cols. exact NDs.
         -- eapply width_perm; [exact CC|exact P2|apply width_wextend; exact Ws'].
     + (* row-wise *)
@@ -235,10 +226,7 @@ Proof.
       inversion S; subst t'.
       assert (t = sem_extend fl_pandas ops ts) as ->.
       { apply (extend_step_ok _ ops w ts t (conj NDs Ws) Wp Wo eq_refl V); [| |exact H].
-        - intros c [I|[I|I]].
-          + apply Us. rewrite <- Cn, <- Cs. exact I.
-          + apply NR. apply in_or_app. left. exact I.
-          + apply NR. apply in_or_app. right. apply in_or_app. left. exact I.
+        - intros c I. rewrite Cs, Cn. apply NR. apply in_or_app. left. exact I.
         - intros r e0 Ir Ie. apply (nulls_ok3_from ts ts' (map snd ops) r e0 Cs Ps); try assumption.
           + exact (Gp CCmpNull).
           + exact (Gp CLogicNull). }
@@ -248,34 +236,31 @@ Proof.
     cbn [plexec] in H. unary_prelude H S G Hs Es Gs Gp.
     assert (forall c, step_guard c (OProject s ops gb) [ts'] = true) as Gp.
     { intros c0. pose proof (G c0) as Gc. rw_unary Gc s e. rewrite Es in Gc. apply andb_true_iff in Gc. tauto. }
-    destruct (IHp e ts ts' Hs Gs Es) as [[NDs Ws] [Cs [Ps Us]]].
-    pose proof (sem_rows_width _ _ _ _ Es) as Ws'. fold (width_ok ts') in Ws'.
-    pose proof (reserved_guard_spec _ _ (Gp CReserved)) as NR. cbn [names_of_step] in NR.
+    destruct (IHp e ts ts' Hs Gs Es) as [[NDs Ws] [Cs Ps]].
+    pose proof (sem_cols _ _ _ _ Es) as Cn. pose proof (sem_rows_width _ _ _ _ Es) as Ws'. fold (width_ok ts') in Ws'.
+    pose proof (cols_exist_spec _ _ (Gp CColumnsExist)) as NR. cbn [step_cols_needed step_source_cols] in NR.
     pose proof (Gp CVocab) as V. cbn [step_guard] in V. rewrite <- forallb_map' in V.
-    inversion S; subst t'. cbn [column_names] in H.
-    pose proof (project_step_nodup _ ops gb ts t V H) as NDp.
+    inversion S; subst t'. cbn [column_names] in H. rewrite <- Cn, <- Cs in H.
+    pose proof (project_step_nodup _ _ ops gb ts t V H) as NDp.
     assert (t = sem_project fl_pandas ops gb ts) as ->.
     { apply (project_step_same _ ops gb ts t (conj NDs Ws) eq_refl V); [| |exact H].
-      - intros c [I|I]; apply NR; apply in_or_app; right; apply in_or_app; [right|left]; exact I.
+      - intros c [I|I]; rewrite Cs, Cn; apply NR; apply in_or_app; [right|left]; exact I.
       - intros -> Er. pose proof (Gp CEmptyProject) as GE. cbn [step_guard] in GE.
         assert (rows ts' = []) as Er' by (rewrite Er in Ps; apply Permutation_nil in Ps; exact Ps). rewrite Er' in GE.
         apply negb_true_iff in GE. apply forallb_forall. intros ke Ike. apply negb_true_iff.
         destruct (mem (agg_of (snd ke)) _) eqn:M; [|reflexivity].
         assert (existsb (fun ke0 => mem (agg_of (snd ke0)) ["sum"; "count"; "size"; "_size"]) ops = true); [|congruence].
         apply existsb_exists. eauto. }
-    split; [split; [exact NDp|apply width_project]|]. split; [reflexivity|]. split.
-    + apply project_perm; try assumption.
-      pose proof (Gp CGroupKeyRepr) as GK. cbn [step_guard] in GK. rewrite forallb_forall in GK.
-      intros r1 r2 I1 I2 E. specialize (GK r1 I1). rewrite forallb_forall in GK. specialize (GK r2 I2).
-      rewrite E in GK. cbn [negb orb] in GK. apply (proj1 (eqb_true _ _)) in GK. exact GK.
-    + intros c I. cbn [column_names] in I. apply NR. apply in_app_iff in I. destruct I as [I|I].
-      * apply in_or_app. right. apply in_or_app. right. exact I.
-      * apply in_or_app. left. exact I.
+    split; [split; [exact NDp|apply width_project]|]. split; [reflexivity|].
+    apply project_perm; try assumption.
+    pose proof (Gp CGroupKeyRepr) as GK. cbn [step_guard] in GK. rewrite forallb_forall in GK.
+    intros r1 r2 I1 I2 E. specialize (GK r1 I1). rewrite forallb_forall in GK. specialize (GK r2 I2).
+    rewrite E in GK. cbn [negb orb] in GK. apply (proj1 (eqb_true _ _)) in GK. exact GK.
   - (* select_rows *)
     cbn [plexec] in H. unary_prelude H S G Hs Es Gs Gp.
     assert (forall c, step_guard c (OSelectRows s x) [ts'] = true) as Gp.
     { intros c0. pose proof (G c0) as Gc. rw_unary Gc s e. rewrite Es in Gc. apply andb_true_iff in Gc. tauto. }
-    destruct (IHp e ts ts' Hs Gs Es) as [[NDs Ws] [Cs [Ps Us]]].
+    destruct (IHp e ts ts' Hs Gs Es) as [[NDs Ws] [Cs Ps]].
     pose proof (Gp CVocab) as V. cbn [step_guard] in V. inversion S; subst t'.
     assert (t = sem_select_rows fl_pandas x ts) as ->.
     { apply (select_rows_step_filter (column_names (OSelectRows s x)) x ts t V); [|exact H]. intros r Ir.
@@ -283,58 +268,46 @@ Proof.
       pose proof (Gp CCmpNull) as G1. pose proof (Gp CLogicNull) as G2.
       cbn [step_guard] in G1, G2. unfold filter_rows_ok in G1, G2. rewrite forallb_forall in G1, G2.
       unfold filter_ok3. rewrite Cs. auto. }
-    split; [split; [exact NDs|apply width_select_rows; exact Ws]|]. split; [exact Cs|]. split; [apply select_rows_perm; assumption|exact Us].
+    split; [split; [exact NDs|apply width_select_rows; exact Ws]|]. split; [exact Cs|apply select_rows_perm; assumption].
   - (* select_columns *)
     cbn [plexec] in H. unary_prelude H S G Hs Es Gs Gp.
-    assert (step_guard CReserved (OSelectCols s cs) [ts'] = true) as Gr.
-    { pose proof (G CReserved) as Gc. rw_unary Gc s e. rewrite Es in Gc. apply andb_true_iff in Gc. tauto. }
-    destruct (IHp e ts ts' Hs Gs Es) as [[NDs Ws] [Cs [Ps Us]]]. inversion S; subst t'.
+    destruct (IHp e ts ts' Hs Gs Es) as [[NDs Ws] [Cs Ps]]. inversion S; subst t'.
     apply pl_select_ok in H. destruct H as [-> [ND _]]. cbn [column_names] in *.
-    split; [split; [exact ND|apply width_select_cols]|]. split; [reflexivity|]. split; [apply select_cols_perm; assumption|].
-    apply (reserved_guard_spec _ _ Gr).
+    split; [split; [exact ND|apply width_select_cols]|]. split; [reflexivity|apply select_cols_perm; assumption].
   - (* drop_columns *)
     cbn [plexec] in H. unary_prelude H S G Hs Es Gs Gp.
-    destruct (IHp e ts ts' Hs Gs Es) as [[NDs Ws] [Cs [Ps Us]]]. pose proof (sem_cols _ _ _ _ Es) as Cn. inversion S; subst t'.
+    destruct (IHp e ts ts' Hs Gs Es) as [[NDs Ws] [Cs Ps]]. pose proof (sem_cols _ _ _ _ Es) as Cn. inversion S; subst t'.
     apply pl_select_ok in H. destruct H as [-> [ND _]]. cbn [column_names] in *.
     unfold sem_drop_cols. rewrite Cn.
-    split; [split; [exact ND|apply width_select_cols]|]. split; [reflexivity|]. split; [apply select_cols_perm; assumption|].
-    intros c I. apply filter_In in I. apply Us. tauto.
+    split; [split; [exact ND|apply width_select_cols]|]. split; [reflexivity|apply select_cols_perm; assumption].
   - (* rename_columns *)
     cbn [plexec] in H. unary_prelude H S G Hs Es Gs Gp.
-    assert (step_guard CReserved (ORename s m) [ts'] = true) as Gr.
-    { pose proof (G CReserved) as Gc. rw_unary Gc s e. rewrite Es in Gc. apply andb_true_iff in Gc. tauto. }
-    destruct (IHp e ts ts' Hs Gs Es) as [[NDs Ws] [Cs [Ps Us]]]. pose proof (sem_cols _ _ _ _ Es) as Cn. inversion S; subst t'.
+    destruct (IHp e ts ts' Hs Gs Es) as [[NDs Ws] [Cs Ps]]. pose proof (sem_cols _ _ _ _ Es) as Cn. inversion S; subst t'.
     unfold pl_rename_step in H. apply rbind_ok in H. destruct H as [t1 [H1 H]].
     unfold pl_rename in H1. destruct (forallb _ m && nodupb _) in H1; [|discriminate]. inversion H1; subst t1.
     apply pl_select_ok in H. destruct H as [-> [ND _]]. cbn [column_names] in *.
     assert (map (rename_col m) (column_names s) = cols (sem_rename m ts)) as CR by (cbn [sem_rename cols]; rewrite Cs, Cn; reflexivity).
     rewrite CR in *. rewrite select_self by (try exact ND; apply width_rename; exact Ws).
     split; [split; [exact ND|apply width_rename; exact Ws]|]. split; [cbn [sem_rename cols]; rewrite Cs; reflexivity|].
-    split; [apply rename_perm; assumption|].
-    intros c I. rewrite <- CR in I. apply in_map_iff in I. destruct I as [c0 [<- I0]].
-    destruct (rename_col_cases m c0) as [I1| ->]; [|apply Us; exact I0]. apply (reserved_guard_spec _ _ Gr). exact I1.
+    apply rename_perm; assumption.
   - (* map_columns *)
     cbn [plexec] in H. unary_prelude H S G Hs Es Gs Gp.
-    assert (step_guard CReserved (OMapCols s m dels) [ts'] = true) as Gr.
-    { pose proof (G CReserved) as Gc. rw_unary Gc s e. rewrite Es in Gc. apply andb_true_iff in Gc. tauto. }
-    destruct (IHp e ts ts' Hs Gs Es) as [[NDs Ws] [Cs [Ps Us]]]. pose proof (sem_cols _ _ _ _ Es) as Cn. inversion S; subst t'.
+    destruct (IHp e ts ts' Hs Gs Es) as [[NDs Ws] [Cs Ps]]. pose proof (sem_cols _ _ _ _ Es) as Cn. inversion S; subst t'.
     unfold pl_rename_step in H. apply rbind_ok in H. destruct H as [t1 [H1 H]].
     unfold pl_rename in H1. destruct (forallb _ m && nodupb _) in H1; [|discriminate]. inversion H1; subst t1.
     apply pl_select_ok in H. destruct H as [-> [ND _]]. cbn [column_names] in *.
     unfold sem_drop_cols. cbn [sem_rename cols]. rewrite Cn.
     split; [split; [exact ND|apply width_select_cols]|]. split; [reflexivity|].
-    split; [apply select_cols_perm; [cbn [sem_rename cols]; rewrite Cs; reflexivity|exact Ps]|].
-    intros c I. apply filter_In in I. destruct I as [I _]. apply in_map_iff in I. destruct I as [c0 [<- I0]].
-    destruct (rename_col_cases m c0) as [I1| ->]; [|apply Us; exact I0]. apply (reserved_guard_spec _ _ Gr). exact I1.
+    apply select_cols_perm; [cbn [sem_rename cols]; rewrite Cs; reflexivity|exact Ps].
   - (* order_rows *)
     cbn [plexec] in H. unary_prelude H S G Hs Es Gs Gp.
     assert (forall c, step_guard c (OOrder s cs rev lim) [ts'] = true) as Gp.
     { intros c0. pose proof (G c0) as Gc. rw_unary Gc s e. rewrite Es in Gc. apply andb_true_iff in Gc. tauto. }
-    destruct (IHp e ts ts' Hs Gs Es) as [[NDs Ws] [Cs [Ps Us]]]. inversion S; subst t'.
+    destruct (IHp e ts ts' Hs Gs Es) as [[NDs Ws] [Cs Ps]]. inversion S; subst t'.
     pose proof (sem_rows_width _ _ _ _ Es) as Ws'. fold (width_ok ts') in Ws'.
     destruct (order_step_perm cs rev lim ts ts' t Cs Ps) as [C2 P2]; [|exact H|].
     + intros NL. destruct lim as [k|]; [|congruence]. split; [exact (Gp CSortNulls)|exact (Gp CSortTies)].
-    + split; [split|split; [exact C2|split; [exact P2|exact Us]]].
+    + split; [split|split; [exact C2|exact P2]].
       * rewrite C2. cbn [sem_order cols]. rewrite <- Cs. exact NDs.
       * eapply width_perm; [exact C2|exact P2|apply width_order; exact Ws'].
   - (* natural_join *)
@@ -343,10 +316,9 @@ Proof.
     assert (forall c, guard_for c a e = true /\ guard_for c b e = true /\ step_guard c (OJoin a b on_a on_b jt) [ta'; tb'] = true) as G3.
     { intros c0. pose proof (G c0) as Gc. rw_binary Gc a b e. rewrite Ea, Eb in Gc.
       apply andb_true_iff in Gc. destruct Gc as [Gc G2]. apply andb_true_iff in Gc. tauto. }
-    destruct (IHa e ta ta' Ha (fun c => proj1 (G3 c)) Ea) as [[NDa Wa] [Ca [Pa Ua]]].
-    destruct (IHb e tb tb' Hb (fun c => proj1 (proj2 (G3 c))) Eb) as [[NDb Wb] [Cb [Pb Ub]]].
+    destruct (IHa e ta ta' Ha (fun c => proj1 (G3 c)) Ea) as [[NDa Wa] [Ca Pa]].
+    destruct (IHb e tb tb' Hb (fun c => proj1 (proj2 (G3 c))) Eb) as [[NDb Wb] [Cb Pb]].
     pose proof (sem_cols _ _ _ _ Ea) as Cna. pose proof (sem_cols _ _ _ _ Eb) as Cnb.
-    pose proof (sem_rows_width _ _ _ _ Ea) as Wa'. pose proof (sem_rows_width _ _ _ _ Eb) as Wb'.
     inversion S; subst t'. cbn [f_join_null_match fl_pandas].
     pose proof (proj2 (proj2 (G3 CJoinKeyed))) as GN. cbn [step_guard] in GN.
     assert (on_a <> []) as NE by (destruct on_a; [discriminate|discriminate]).
@@ -355,35 +327,30 @@ Proof.
     assert (cols t = cols (sem_join false on_a on_b jt ta' tb')) as CC by (rewrite C2; cbn [sem_join cols]; rewrite Ca, Cb; reflexivity).
     assert (Permutation (rows t) (rows (sem_join false on_a on_b jt ta' tb'))) as PP.
     { eapply perm_trans; [exact P2|]. apply join_perm; assumption. }
-    split; [split|split; [exact CC|split; [exact PP|]]].
+    split; [split|split; [exact CC|exact PP]].
     + rewrite C2. apply NoDup_join_cols; assumption.
     + eapply width_perm; [exact CC|exact PP|apply width_join].
-    + intros c I. cbn [column_names] in I. apply in_app_iff in I. destruct I as [I|I]; [apply Ua; exact I|].
-      apply filter_In in I. apply Ub. tauto.
   - (* concat_rows *)
     cbn [plexec] in H. apply rbind_ok in H. destruct H as [ta [Ha H]]. apply rbind_ok in H. destruct H as [tb [Hb H]].
     cbn [sem_gen] in S. destruct (sem_gen fl_pandas a e) as [ta'|] eqn:Ea; [|discriminate]. destruct (sem_gen fl_pandas b e) as [tb'|] eqn:Eb; [|discriminate].
     assert (forall c, guard_for c a e = true /\ guard_for c b e = true /\ step_guard c (OConcat a b idc an bn) [ta'; tb'] = true) as G3.
     { intros c0. pose proof (G c0) as Gc. rw_binary Gc a b e. rewrite Ea, Eb in Gc.
       apply andb_true_iff in Gc. destruct Gc as [Gc G2]. apply andb_true_iff in Gc. tauto. }
-    destruct (IHa e ta ta' Ha (fun c => proj1 (G3 c)) Ea) as [[NDa Wa] [Ca [Pa Ua]]].
-    destruct (IHb e tb tb' Hb (fun c => proj1 (proj2 (G3 c))) Eb) as [[NDb Wb] [Cb [Pb Ub]]].
+    destruct (IHa e ta ta' Ha (fun c => proj1 (G3 c)) Ea) as [[NDa Wa] [Ca Pa]].
+    destruct (IHb e tb tb' Hb (fun c => proj1 (proj2 (G3 c))) Eb) as [[NDb Wb] [Cb Pb]].
     pose proof (sem_cols _ _ _ _ Ea) as Cna. inversion S; subst t'.
     assert (cols ta = column_names a) as Cta by (rewrite Ca; exact Cna).
-    assert (t = sem_concat idc an bn ta tb) as -> by (apply (concat_step_ok (column_names a) idc an bn ta tb t (conj NDa Wa) Cta H)).
-    pose proof (reserved_guard_spec _ _ (proj2 (proj2 (G3 CReserved)))) as NR. cbn [names_of_step] in NR.
     assert (match idc with Some c => mem c (column_names a) | None => false end = false) as Ei.
     { unfold pl_concat_step in H. destruct (match idc with Some c => mem c (column_names a) | None => false end); [discriminate|reflexivity]. }
-    split; [split|split; [|split]].
+    assert (t = sem_concat idc an bn ta tb) as -> by (apply (concat_step_ok (column_names a) idc an bn ta tb t (conj NDa Wa) Cta H)).
+    split; [split|split].
     + unfold sem_concat. destruct idc as [c|]; cbn [cols]; [|exact NDa]. apply NoDup_snoc; [exact NDa|]. apply mem_false. rewrite Cta. exact Ei.
     + apply width_concat. exact Wa.
     + unfold sem_concat. destruct idc; cbn [cols]; rewrite Ca; reflexivity.
     + apply concat_perm; assumption.
-    + intros c I. cbn [column_names] in I. apply in_app_iff in I. destruct I as [I|I]; [apply Ua; exact I|].
-      destruct idc as [c0|]; [|destruct I]. apply NR. exact I.
 Qed.
 
 Theorem polars_agrees_or_raises p e t t' :
   plexec p e = Ok t -> agree_guardb p e = true -> sem_gen fl_pandas p e = Some t' ->
   cols t = cols t' /\ Permutation (rows t) (rows t').
-Proof. intros H G S. destruct (agree_main p e t t' H (guard_all p e G) S) as [_ [A [B _]]]. auto. Qed.
+Proof. intros H G S. destruct (agree_main p e t t' H (guard_all p e G) S) as [_ [A B]]. auto. Qed.
